@@ -81,6 +81,17 @@ def main():
                 print(r.stdout[-1500:]); print(r.stderr[-3000:])
             if r.returncode == 1 and viol:
                 caught = True
+            # Keep a record of what was tried (development log, committed with the seeds).
+            try:
+                rp = os.path.join(ROOT, "seeded", "results.json")
+                res = json.load(open(rp)) if os.path.exists(rp) else {}
+                head = subprocess.run(["git", "-C", ROOT, "rev-parse", "--short", "HEAD"], capture_output=True, text=True).stdout.strip()
+                res.setdefault(name, []).append({"check": p, "tier": tier, "only": only, "rc": r.returncode, "caught": bool(r.returncode == 1 and viol),
+                                                 "signatures": [s.replace("signature: ", "") for s in sigs][:8], "verif_commit": head,
+                                                 "summary": summary[-1] if summary else ""})
+                json.dump(res, open(rp, "w"), indent=1)
+            except Exception as e:  # noqa: BLE001
+                print("could not record result:", e)
     finally:
         if inplace:
             sh("git -C /repo checkout -- .")
